@@ -21,15 +21,16 @@ Fixpoint bytes_eqb (a b : bytes) : bool :=
   | _, _ => false
   end.
 
-(* MIR_type_t: I8..U64, F, D, LD, P, BLK+n (n < MIR_BLK_NUM), RBLK *)
+(* MIR_type_t: I8..U64, F, D, LD, P, BLK+n (n < MIR_BLK_NUM), RBLK, UNDEF (only as the type of a
+   va_list memory operand) *)
 Inductive mtype : Set :=
 | TI8 | TU8 | TI16 | TU16 | TI32 | TU32 | TI64 | TU64 | TF | TD | TLD | TP
-| TBLK (n : N) | TRBLK.
+| TBLK (n : N) | TRBLK | TUNDEF.
 
 Definition mtype_num (t : mtype) : N :=
   match t with
   | TI8 => 0 | TU8 => 1 | TI16 => 2 | TU16 => 3 | TI32 => 4 | TU32 => 5 | TI64 => 6 | TU64 => 7
-  | TF => 8 | TD => 9 | TLD => 10 | TP => 11 | TBLK n => 12 + n | TRBLK => 17
+  | TF => 8 | TD => 9 | TLD => 10 | TP => 11 | TBLK n => 12 + n | TRBLK => 17 | TUNDEF => 18
   end%N.
 
 Definition mtype_of_num (k : N) : option mtype :=
@@ -37,7 +38,7 @@ Definition mtype_of_num (k : N) : option mtype :=
   | 0 => Some TI8 | 1 => Some TU8 | 2 => Some TI16 | 3 => Some TU16 | 4 => Some TI32 | 5 => Some TU32
   | 6 => Some TI64 | 7 => Some TU64 | 8 => Some TF | 9 => Some TD | 10 => Some TLD | 11 => Some TP
   | 12 => Some (TBLK 0) | 13 => Some (TBLK 1) | 14 => Some (TBLK 2) | 15 => Some (TBLK 3)
-  | 16 => Some (TBLK 4) | 17 => Some TRBLK
+  | 16 => Some (TBLK 4) | 17 => Some TRBLK | 18 => Some TUNDEF
   | _ => None
   end%N.
 
@@ -45,6 +46,7 @@ Definition all_blk_type_p (t : mtype) : bool :=
   match t with TBLK _ | TRBLK => true | _ => false end.
 
 Definition mtype_eqb (a b : mtype) : bool := N.eqb (mtype_num a) (mtype_num b).
+Definition is_undef (t : mtype) : bool := match t with TUNDEF => true | _ => false end.
 
 (* memory operand; base/index by register name, alias/nonalias by alias name ([None] = 0) *)
 Record mem : Set := mkMem {
